@@ -3,6 +3,7 @@ import LassoProofs.Lemmas.ConcArenaIds
 import LassoProofs.Lemmas.ConcArenaSolo
 import LassoProofs.Lemmas.ConcArenaSeq
 import LassoModel.Extracted
+import LassoProofs.Lemmas.Config
 /-
   C05 — concurrent storage integrity: exclusive regions, no torn strings, no lost block, ordering.
 
@@ -234,5 +235,12 @@ example : quiescent (run (init 2 64 [[[1, 2], [3, 4]], [[5, 6], [7, 8]]]) demoPu
 grow the arena (the block of 2 bytes is full): the tree says "double", the machine does it. -/
 example : (Grow.eval (envOf (run (init 2 64 [[[1, 2], [3, 4]]]) (List.replicate 5 (0, false))) [3, 4]) Extracted.lockfreeGrow)
     = some (.grow 4 4 (some 4) .pushFront) := by decide
+
+/-- The code this file's theorems are about is the same under every feature configuration: the regenerated
+census of conditional compilation contains import blocks, whole serde impls, optional-dependency impls and
+module declarations only, and no gate inside any function body (`Lemmas/Config.lean`). -/
+theorem same_code_under_every_feature_configuration :
+    (Extracted.cfgGates.all fun g => g.kind != .other) = true ∧ Extracted.bodyGates.isEmpty = true :=
+  Lasso.one_code_base_for_all_configurations
 
 end Lasso.C05
